@@ -60,3 +60,116 @@ Theorem C02_volume_length : forall fx pol ffs3 h buf files h' b,
   zlen b = v_length h /\ v_length h' = v_length h.
 Proof. exact asm_vol_v_len. Qed.
 Print Assumptions C02_volume_length.
+
+(* asm_fv_nospace at the volume: the rebuild of a non-resizable volume fails when a file would end
+   beyond its Length (the error, not a truncated or overlapping volume) *)
+Theorem C02_volume_nospace : forall fx pol ffs3 h buf files,
+  vol_verbatim fx h files = false -> v_resizable h = false -> 0 <= v_dataoff h ->
+  (exists k f s, nth_error files k = Some f /\ nth_error (file_starts (v_dataoff h) files) k = Some s /\
+                 v_length h < s + zlen (node_buf f)) ->
+  is_ok (asm_vol_v fx pol ffs3 h buf files) = false.
+Proof. exact asm_vol_v_nospace. Qed.
+Print Assumptions C02_volume_nospace.
+
+(* ---- checksums and size fields of what Assemble builds ---- *)
+
+(* a file written by SetSize + ChecksumAndAssemble (header/body checksums, size fields, large
+   attribute) passes the reader's per-file checks; stated for file types without sections *)
+Theorem C02_created_file_valid : forall vfv h ext attr data,
+  zlen (f_guid h) = 16 -> 0 <= ext < 2 ^ 64 ->
+  ext = file_hlen attr + zlen data -> attr_large attr = (16777215 <=? ext) ->
+  supported_file (f_type h) = false ->
+  v_file vfv (snd (checksum_and_assemble h ext attr data)) = true.
+Proof. exact caa_v_file. Qed.
+Print Assumptions C02_created_file_valid.
+
+(* pad files (alignment gaps, remove_pad) are valid files and cannot be mistaken for free space *)
+Theorem C02_pad_file_valid : forall vfv pol size b,
+  create_pad_file pol size = Ok b -> size < 2 ^ 64 ->
+  v_file vfv b = true /\ all_eq pol (sub 0 24 b) = false /\ zlen b = size.
+Proof. exact pad_file_valid. Qed.
+Print Assumptions C02_pad_file_valid.
+
+(* the 16-bit sum of a rebuilt volume's header is zero *)
+Theorem C02_volume_header_checksum : forall fx pol ffs3 h buf files h' b,
+  asm_vol_v fx pol ffs3 h buf files = Ok (h', b) ->
+  vol_verbatim fx h files = false -> v_resizable h = false -> 52 <= v_hdrlen h ->
+  sum16 (sub 0 (v_hdrlen h) b) = 0.
+Proof. exact asm_vol_hdr_cksum. Qed.
+Print Assumptions C02_volume_header_checksum.
+
+(* ---- the independent reader accepts a rebuilt volume ---- *)
+
+(* C02_valid_after_edits (the goal; NOT proved):
+
+     forall img ops out, valid_image d img = true ->
+       edit_and_save dec enc u2s s2u nvar true d ops img = Ok out ->
+       valid_image d out = true /\ zlen out = zlen img.
+
+   Proved below is its volume-assembly core, C02_valid_after_edits_partial: when Assemble rebuilds
+   a non-resizable volume from files that are individually valid for the reader ([fok]: per-file
+   checks pass, header not erased; attribute byte = the header record's), the result has exactly
+   Length bytes, keeps Length, its header sums to zero, and the reader's file walk ([v_files]: 8-byte
+   placement, size fields, header/body checksums, data alignment, no overlap, erased free space)
+   accepts it from the data offset on, whatever the edits did to the file list.
+   Exact gap to the goal: (1) [fok] for the files themselves - for untouched files it follows from
+   valid_image of the input through the parser (parse_fv keeps the bytes: property C04), for files
+   rebuilt from sections from C02_created_file_valid plus the section walk ([v_sections] over
+   join4/gen_sec_header), neither link is proved; (2) the header rules of valid_fv other than
+   length and checksum (signature, block map sum, extended header) - the header bytes below offset
+   60 other than Length/GUID/checksum are the input's; (3) resizable (nested) volumes, where Length
+   grows to Align(newlen, blocksize) with Go's bit-mask Align; (4) the composition
+   section -> file -> nested volume -> region ([v_region] over copy_elems) and the fuel of valid_fv.
+   These are covered on the implementation by the oracle p_c02 only. *)
+Theorem C02_valid_after_edits_partial : forall vfv fx pol ffs3 h buf files h' b,
+  asm_vol_v fx pol ffs3 h buf files = Ok (h', b) ->
+  vol_verbatim fx h files = false -> v_resizable h = false ->
+  60 <= v_dataoff h -> v_dataoff h mod 8 = 0 -> 52 <= v_hdrlen h ->
+  (pol = 0 \/ pol = 255) -> v_length h < 2 ^ 64 ->
+  Forall (fun f => fok vfv pol (node_buf f) = true /\ rd 19 1 (node_buf f) = node_attr f) files ->
+  zlen b = v_length h /\ v_length h' = v_length h /\
+  sum16 (sub 0 (v_hdrlen h) b) = 0 /\
+  forall fuel, (2 * length files < fuel)%nat -> v_files vfv fuel pol b (v_dataoff h) = true.
+Proof. exact asm_vol_valid_core. Qed.
+Print Assumptions C02_valid_after_edits_partial.
+
+(* ---- examples: the reader on a real image, before and after edits ---- *)
+
+Definition no_codec (_ : Z) (_ : bytes) : option bytes := None.
+Definition no_nvar (_ : bytes) : option bytes := None.
+Definition id_bytes (b : bytes) : bytes := b.
+
+(* a 192-byte FFS2 volume holding one raw file 00000001-AB00-0000-0000-000000000077 *)
+Definition tiny_image : bytes := [0; 0; 0; 0; 0; 0; 0; 0; 0; 0; 0; 0; 0; 0; 0; 0; 120; 229; 140; 140; 61; 138; 28; 79; 153; 53; 137; 97; 133; 195; 45; 211; 192; 0; 0; 0; 0; 0; 0; 0; 95; 70; 86; 72; 0; 8; 0; 0; 72; 0; 207; 236; 0; 0; 0; 2; 3; 0; 0; 0; 64; 0; 0; 0; 0; 0; 0; 0; 0; 0; 0; 0; 1; 0; 0; 0; 0; 171; 0; 0; 0; 0; 0; 0; 0; 0; 0; 119; 1; 170; 192; 0; 28; 0; 0; 248; 1; 2; 3; 4; 255; 255; 255; 255; 255; 255; 255; 255; 255; 255; 255; 255; 255; 255; 255; 255; 255; 255; 255; 255; 255; 255; 255; 255; 255; 255; 255; 255; 255; 255; 255; 255; 255; 255; 255; 255; 255; 255; 255; 255; 255; 255; 255; 255; 255; 255; 255; 255; 255; 255; 255; 255; 255; 255; 255; 255; 255; 255; 255; 255; 255; 255; 255; 255; 255; 255; 255; 255; 255; 255; 255; 255; 255; 255; 255; 255; 255; 255; 255; 255; 255; 255; 255; 255; 255; 255; 255; 255; 255; 255; 255; 255].
+Definition tiny_guid : bytes := [1; 0; 0; 0; 0; 171; 0; 0; 0; 0; 0; 0; 0; 0; 0; 119].
+Definition save_of (ops : list op) : outcome bytes :=
+  edit_and_save no_codec no_codec id_bytes id_bytes no_nvar true 8 ops tiny_image.
+Definition valid_out (o : outcome bytes) : bool :=
+  match o with Ok out => valid_image 8 out && (zlen out =? zlen tiny_image) | _ => false end.
+
+Example ex_input_valid : valid_image 8 tiny_image = true.
+Proof. vm_compute. reflexivity. Qed.
+(* a flipped header byte is noticed *)
+Example ex_reader_rejects : valid_image 8 (splice 90 [66] tiny_image) = false.
+Proof. vm_compute. reflexivity. Qed.
+Example ex_remove_valid : valid_out (save_of [ORemove false (guid_string tiny_guid)]) = true.
+Proof. vm_compute. reflexivity. Qed.
+Example ex_remove_pad_valid : valid_out (save_of [ORemove true (guid_string tiny_guid)]) = true.
+Proof. vm_compute. reflexivity. Qed.
+(* a file to insert: the image's own file with another first GUID byte, header checksum adjusted *)
+Definition tiny_file : bytes := splice 16 [255] (splice 0 [3] (sub 72 28 tiny_image)).
+Example ex_insert_valid :
+  valid_out (save_of [OInsert IAfter (guid_string tiny_guid) tiny_file]) = true.
+Proof. vm_compute. reflexivity. Qed.
+Example ex_insert_changes : match save_of [OInsert IAfter (guid_string tiny_guid) tiny_file] with
+                            | Ok out => negb (bytes_eqb out tiny_image) | _ => false end = true.
+Proof. vm_compute. reflexivity. Qed.
+(* five more files do not fit 192 bytes: an error, no bytes *)
+Example ex_nospace :
+  is_ok (save_of (repeat (OInsert IEnd (guid_string tiny_guid) tiny_file) 5)) = false.
+Proof. vm_compute. reflexivity. Qed.
+(* placement arithmetic on a concrete case: a file asking for 16-byte data alignment after offset 96:
+   data at 128 would leave an 8-byte gap, too small for a pad file, so it moves on to 144 *)
+Example ex_file_start :
+  file_start 96 (NFile (mkFile tiny_guid 0 170 7 8 28 248 28 24 None) (sub 72 28 tiny_image) []) = 120.
+Proof. vm_compute. reflexivity. Qed.
